@@ -49,6 +49,20 @@ def run_case(case):
 		wide = gm.jaccarddist(_arr(A, 'u8'), _arr(B, 'i8'))
 		if bits(float(wide)) != bits(float(dab)):
 			problems.append('value depends on the integer width')
+		# the same distance through the bulk entry points (reference stored in a SignatureArray of its own dtype / in a list)
+		from gambit.sigs import SignatureArray
+		for name, fn in (('jaccarddist_array/SignatureArray', lambda: gm.jaccarddist_array(a, SignatureArray([b, c], dtype=b.dtype if b.dtype == c.dtype else None))[0]),
+		                 ('jaccarddist_array/list', lambda: gm.jaccarddist_array(a, [b, c])[0]),
+		                 ('jaccarddist_matrix', lambda: gm.jaccarddist_matrix([a, c], SignatureArray([b], dtype=b.dtype))[0, 0])):
+			if b.dtype != c.dtype and 'SignatureArray' in name:
+				continue
+			try:
+				v = fn()
+			except Exception as e:
+				problems.append(f'{name} raised {type(e).__name__}: {e}')
+				continue
+			if bits(float(v)) != bits(float(dab)):
+				problems.append(f'{name} gives {float(v)!r}, jaccarddist gives {float(dab)!r}')
 		return {'ok': not problems, 'expected': 'metric axioms', 'actual': problems or 'ok'}
 	return {'error': 'unknown kind'}
 
